@@ -195,6 +195,7 @@ def run_shard(params, which=None):
         sh.count('transactions_overlapping_a_commit', out['overlap'])
         sh.count('ok_commits', out['ok_commits'])
         sh.count('conflicts_raised', out['conflicts'])
+        sh.count('commits_failed_after_the_storage_voted', out.get('vote_failures', 0))
         sh.count('undo_commits_in_worlds', out.get('undos', 0))
         for p in out['pack']:
             sh.note('pack_outcomes', p)
